@@ -1,7 +1,7 @@
 #!/bin/sh
 # usage: tools/seed_sweep.sh [seed dirs...]   -- runs each seeded change's property check against a scratch worktree with the patch applied
 # (never touches /repo). Output: one line per seed: <seed> exit=<code> <VIOLATION lines count> ; logs in /tmp/wt/sweep/<seed>.log
-WT=/tmp/wt/sweeptree
+WT=/tmp/wt/sweeptree_$$
 mkdir -p /tmp/wt/sweep
 git -C /repo worktree remove --force $WT 2>/dev/null
 git -C /repo worktree add -f $WT HEAD >/dev/null 2>&1
